@@ -43,7 +43,7 @@ CHECKS = {
     ),
     "C06": dict(
         families=lambda tier: [fam("step"), fam("loops")],
-        rule="(step) one step of EXEC.IF, CODE.IF, EXEC.K, EXEC.S, EXEC.Y, CODE.DO, CODE.DO*, CODE.QUOTE, EXEC.DUP/POP/SWAP/ROT/FLUSH and of list unpacking for all EXEC and CODE depths 0..4 of distinct items x BOOLEAN in {[],[T],[F],[T,F]} against the reference rows; (loops) whole executions, by single steps to quiescence, of EXEC.LOOP / CODE.LOOP / INTVECTOR.LOOP programs: iteration counts -1..N, every int vector up to length 3 over {1,2}, 12 bodies (incl. bodies that read INDEX.CURRENT, push/pop INTEGER, are empty, or are themselves loops), two-level nestings of all 9 loop-kind pairs, each from an empty state and from one that already holds an index, a vector and an integer; oracle = the log of a harness-registered PROBE instruction (INDEX.CURRENT, top INTEGER, INDEX depth) and the complete final state equal those of a structured reference that encodes the documented whole-run meaning (body destination-many times with CURRENT = 0..n-1, once per element, nothing left behind)",
+        rule="(step) one step of EXEC.IF, CODE.IF, EXEC.K, EXEC.S, EXEC.Y, CODE.DO, CODE.DO*, CODE.QUOTE, EXEC.DUP/POP/SWAP/ROT/FLUSH and of list unpacking for all EXEC and CODE depths 0..4 of distinct items x BOOLEAN in {[],[T],[F],[T,F]} against the reference rows, and one unfolding step of EXEC.LOOP / CODE.LOOP / INTVECTOR.LOOP and the INDEX.* instructions for EXEC depth 0..3 x CODE depth 0..2 x five INDEX stacks x four INTVECTOR stacks (the loop continuation lies directly beneath the body in every iteration, including the last); (loops) whole executions, by single steps to quiescence, of EXEC.LOOP / CODE.LOOP / INTVECTOR.LOOP programs: iteration counts -1..N, every int vector up to length 3 over {1,2}, 12 bodies (incl. bodies that read INDEX.CURRENT, push/pop INTEGER, are empty, or are themselves loops), two-level nestings of all 9 loop-kind pairs, each from an empty state and from one that already holds an index, a vector and an integer; oracle = the log of a harness-registered PROBE instruction (INDEX.CURRENT, top INTEGER, INDEX depth) and the complete final state equal those of a structured reference that encodes the documented whole-run meaning (body destination-many times with CURRENT = 0..n-1, once per element, nothing left behind)",
         bounds=dict(quick="n <= 5, vectors <= 3, nesting 2", thorough="n <= 8, vectors <= 4, more bodies"),
         assumptions=["loop bodies in the alphabet do not manipulate the EXEC stack below themselves"],
     ),
